@@ -53,6 +53,22 @@ def doomed(graph, states, root):
     return mem
 
 
+def is_closed(graph, pst):
+    """Cancellation is closed downstream in `pst`: every child of a cancelled task is cancelled, except a terminal
+    (join) child that still has a parent which is not cancelled. States reached through TaskGraph.cancel /
+    notify_task_completion only are closed; a bare Task.cancel() on one task breaks it."""
+    for k0, st0 in enumerate(pst):
+        if st0 != "CANCELLED":
+            continue
+        for c in graph["children"][k0]:
+            if pst[c] == "CANCELLED":
+                continue
+            if graph["tasks"][c]["terminal"] and any(pst[q] != "CANCELLED" for q in graph["parents"][c]):
+                continue
+            return False
+    return True
+
+
 def has_dup_dfs(graph, root):
     seen, stack, out = set(), [root], []
     while stack:
@@ -83,11 +99,7 @@ def oracle(prop, graph, init, ops, obs):
                 root = op["n"]
                 # precondition (reachable through TaskGraph.cancel only): a cancelled task's
                 # non-terminal children are cancelled too; a bare Task.cancel() breaks it
-                closed = all(
-                    cst0 != "CANCELLED" or graph["tasks"][c]["terminal"] or pst[c] == "CANCELLED"
-                    for k0, cst0 in enumerate(pst)
-                    for c in graph["children"][k0]
-                )
+                closed = is_closed(graph, pst)
                 if pst[root] in ("VIRTUAL", "RELEASED", "SCHEDULED") and closed:
                     mem = doomed(graph, pst, root)
                     live = [m for m in mem if pst[m] in ("VIRTUAL", "RELEASED", "SCHEDULED")]
@@ -106,7 +118,7 @@ def oracle(prop, graph, init, ops, obs):
         if prop == "C07" and name == "notify" and o["out"] == "ok":
             n = op["n"]
             kids = graph["children"][n]
-            if graph["tasks"][n]["conditional"] and kids:
+            if graph["tasks"][n]["conditional"] and kids and is_closed(graph, pst):
                 probs = [prev[c][8] for c in kids]
                 rel, can = o["ret"]["released"], o["ret"]["cancelled"]
                 if all(p <= 0 for p in probs):
